@@ -24,8 +24,8 @@ Proof.
     match h with
     | Deny code _ => Ok s (one code) []
     | _ => if match h with Allow => false | _ => true end && negb (should_accept_origin (pol c) (o_domain og))
-           then Ok {| st := st s; from := Some og; rcpts := rcpts s; helo := helo s |} (one 501) []
-           else Ok (set_st {| st := st s; from := Some og; rcpts := rcpts s; helo := helo s |} MAIL) (one 250) []
+           then Ok {| st := st s; from := Some og; rcpts := rcpts s; helo := helo s; tls := tls s |} (one 501) []
+           else Ok (set_st {| st := st s; from := Some og; rcpts := rcpts s; helo := helo s; tls := tls s |} MAIL) (one 250) []
     end = Ok s' r d ->
     (first_code r = 250%Z <->
      exists sz' og', MParsed sz (Some og) = MParsed sz' (Some og') /\ size_within c sz' /\
@@ -58,7 +58,7 @@ Qed.
 (** The statement is not vacuous: a greeted session, a sender of an accepted domain. *)
 Example mail_250_instance :
   let c := {| pol := load_cfg true [] [] true [] [] []; max_rcpt := 10; max_bytes := 1000; tls_enabled := false |} in
-  let s := {| st := READY; from := None; rcpts := []; helo := [104] |} in
+  let s := {| st := READY; from := None; rcpts := []; helo := [104]; tls := false |} in
   let og := {| o_addr := [97; 64; 98]; o_domain := [98] |} in
   exists s', step c s (L (Mail (MParsed (SzVal 500) (Some og)) NoAns)) = Ok s' [(250%Z, false)] [].
 Proof. eexists. reflexivity. Qed.
